@@ -25,6 +25,7 @@ def adversarial_rows(arch):
         dict(cfa=("e", [("breg", R["fp"], -8)]), fp=("ve", [("breg", R["sp"], 0)]), ra=("e", [("breg", R["sp"], 0)])),
         dict(cfa=("r", R["sp"], -16), fp=("s",), ra=("o", 8)),
         dict(cfa=("r", R["sp"], 8 if arch == "x86" else 16), fp=("o", -8 if arch == "x86" else -16), ra=("vo", 0)),
+        dict(cfa=("r", R["sp"], 0), fp=("s",), ra=("o", 8)),                              # zero-size frame, other slot
     ]
     return rows
 
@@ -65,7 +66,20 @@ def generate(rng, tier):
                 b1, b2 = base + 8 * 10, base + 8 * 40
                 d[b1] = b2; d[b2] = b1; d[b1 + 8] = rng.choice(code); d[b2 + 8] = rng.choice(code)
                 pairs = sorted(d.items())
+            # two zero-size frames that hand the walk to each other: [sp] names the function whose row reads [sp+8] and
+            # [sp+8] the one whose row reads [sp] (sp never moves; only the first step may do that)
+            d = dict(pairs)
+            ia = [i for i, r in enumerate(rows) if r["cfa"] == ("r", ARCH_REGS[arch]["sp"], 0) and r["ra"] == ("o", 0)][0]
+            ib = [i for i, r in enumerate(rows) if r["cfa"] == ("r", ARCH_REGS[arch]["sp"], 0) and r["ra"] == ("o", 8)][0]
+            pp = base + 8 * 20
+            d[pp] = 0x11000 + 0x100 * ib + 0x21; d[pp + 8] = 0x11000 + 0x100 * ia + 0x31
+            pairs = sorted(d.items())
             s.mem("W%d" % mi, pairs)
+            for pc0 in (0x11000 + 0x100 * ia + 0x11, 0x11000 + 0x100 * ib + 0x11):
+                regs = s.regs_x86(pc0, pp, 0) if arch == "x86" else s.regs_a64(M64, 0x11000 + 0x100 * ia + 0x41, pp, 0)
+                s.add("newcache F")
+                ln = s.add("trace U F %s %s W%d %d" % (hx(pc0), regs, mi, 40), tag="%s:pingpong" % arch)
+                s.meta[ln] = {"budget": 36, "arch": arch}
             for st in range(6):
                 pc = rng.choice(code) - 1
                 sp = base + 8 * rng.below(nw)
